@@ -73,7 +73,20 @@ Inductive c11case :=
   (* one call c(x) of a declared constraint *)
 | KCall (sp : spelling) (x : xq) (impl : xq) (exact : bool)
   (* Problem.__call__ on a solution with these constraint values *)
-| KEval (sps : list spelling) (xs : list xq) (impl_cv : xq) (impl_feasible : bool) (exact : bool).
+| KEval (sps : list spelling) (xs : list xq) (impl_cv : xq) (impl_feasible : bool) (exact : bool)
+  (* the class attributes the model transcribes: predefined constant i (0 EQUALS_ZERO, 1 LEQ_ZERO, 2 GEQ_ZERO,
+     3 LESS_THAN_ZERO, 4 GREATER_THAN_ZERO), the OPERATORS dict (key, function index) in dict order,
+     the default delta of _constraint_lt / _constraint_gt *)
+| KConst (i : Z) (s : list Z)
+| KTable (entries : list (list Z * Z))
+| KDelta (lt_default gt_default : Q).
+
+Fixpoint table_eqb (a : list (list ascii * cop)) (b : list (list Z * Z)) : bool :=
+  match a, b with
+  | [], [] => true
+  | (k, op) :: a', (k', i) :: b' => str_eqb k (str_of k') && Z.eqb (op_index op) i && table_eqb a' b'
+  | _, _ => false
+  end.
 
 Definition c11_check (k : c11case) : bool :=
   match k with
@@ -103,4 +116,11 @@ Definition c11_check (k : c11case) : bool :=
                    end
       | None => false
       end
+  | KConst i s =>
+      match nth_error [EQUALS_ZERO; LEQ_ZERO; GEQ_ZERO; LESS_THAN_ZERO; GREATER_THAN_ZERO] (Z.to_nat i) with
+      | Some c => (0 <=? i) && str_eqb c (str_of s)
+      | None => false
+      end
+  | KTable entries => table_eqb OPERATORS entries
+  | KDelta a b => Qeq_bool delta0 a && Qeq_bool delta0 b
   end.
